@@ -265,7 +265,15 @@ class Stacker(Transformer):
             if self.dims_mapping[sample_name][0] != sample_name:
                 X = X.rename({sample_name: self.dims_mapping[sample_name][0]})
 
-        ds: DataSet = X.to_unstacked_dataset(feature_name, "variable").unstack()
+        ds: DataSet = X.to_unstacked_dataset(feature_name, "variable")
+        # Unstack only the internally stacked dimensions; a MultiIndex of the user's
+        # own sample dimension (scores of a fitted model carry it) must stay intact
+        stacked = [
+            dim
+            for dim in (sample_name, feature_name)
+            if dim in ds.dims and isinstance(ds.indexes[dim], pd.MultiIndex)
+        ]
+        ds = ds.unstack(stacked)
         ds = self._reorder_dims(ds)
         return ds
 
